@@ -1,5 +1,405 @@
 import Netpol.Model.Exposure
+import Netpol.Spec.K8s
+import Netpol.Proofs.ExposureLayer
+import Netpol.Properties.C06
+
+/-! C07: "For every workload protected in a direction and every hypothetical new pod (arbitrary
+labels, in an existing or a new namespace), each connection the workload's policies would allow
+with that pod is covered by the workload's entire-cluster exposure or by a reported exposure entry
+whose selectors the pod satisfies. The only documented omission is a rule whose selectors consist
+solely of label equalities that an existing workload (in a matching namespace) already satisfies."
+
+Vocabulary: see `Netpol.Properties.C06`. In addition
+* `Exposure.NamesNonEmpty e` — no rule holds the empty string as a port name (API validation).
+* `Exposure.RepCovers x np peer q nsl` — the engine holds a representative peer that the rule peer
+  `peer` of policy `np` selects (`SelectorsFullMatch`) and whose selectors the hypothetical pod `q`
+  (namespace labels `nsl`) satisfies. `rep_covers_of_generated` shows that the representative peer
+  generated from `peer` itself does, so that the hypothesis `hcov` of the main theorem says: *the
+  representative peer of every rule peer that matches `q` is still there* — it was not removed by
+  `removeRepresentativePeersMatchingLabels` (the documented omission) and was not lost to another
+  selector pair with the same key (finding: `uniqueKey` concatenates the requirement strings without
+  a separator, see the examples). -/
 namespace Netpol.Properties.C07
-open Netpol
+open Netpol Engine Exposure
+
+/-- without admin policies, a governed pod is allowed what `Spec.npAllows` allows -/
+theorem npAllows_of_allowedDir (v : Spec.View) (ha : v.anps = []) (hb : v.banp = none) (p : Pod)
+    (l : Labels) (other dst : Spec.End) (d : Dir) (pr : Proto) (x : Int)
+    (hg : Spec.governs v p d = true)
+    (h : Spec.allowedDir v (.pod p l) other dst d pr x = true) :
+    Spec.npAllows v p other dst d pr x = true := by
+  rw [C01.allowedDir_np_only v ha hb] at h
+  simpa [C01.npOnlyDir, hg] using h
+
+/-- the representative peer generated from a rule peer (same pod selector; the namespace selector
+of the rule, or the name label of the policy's namespace) covers every pod the rule peer matches -/
+theorem rep_covers_of_generated (x : XEngine) (np : NetPol) (podSel nsSel : Option Selector)
+    (q : Pod) (nsl : Labels) (hc : NsConsistent q nsl)
+    (hm : Spec.npPeerMatches np (.sel podSel nsSel) (.pod q nsl) = true)
+    (krp : String × Pod) (hk : krp ∈ x.reps) (h1 : krp.2.reprPodSel = podSel)
+    (h2 : krp.2.reprNsSel = some (nsSel.getD (nsNameSelector np.ns))) :
+    RepCovers x np (.sel podSel nsSel) q nsl := by
+  rw [Spec.npPeerMatches_sel_pod, Bool.and_eq_true] at hm
+  refine ⟨krp, hk, ?_, ?_, ?_⟩
+  · rw [h1, h2]
+    unfold repPeerMatch
+    rw [Bool.and_eq_true]
+    constructor
+    · cases nsSel with
+      | none => exact selectorsFullMatch_self _
+      | some s => exact selectorsFullMatch_self s
+    · cases podSel with
+      | none => rfl
+      | some ps => exact selectorsFullMatch_self ps
+  · intro ps hps
+    rw [h1] at hps
+    subst hps
+    exact hm.2
+  · intro ns hns
+    rw [h2] at hns
+    cases hns
+    cases nsSel with
+    | some s => exact hm.1
+    | none =>
+      have : np.ns = q.ns := by simpa using hm.1
+      simp only [Option.getD_none, nsNameSelector, Selector.matches, List.all_cons, List.all_nil,
+        Bool.and_true, beq_iff_eq]
+      rw [hc, this]
+
+/-- Rung 5, one workload in one direction. For a protected workload and a hypothetical pod `q` in a
+namespace with labels `nsl`: every in-range (protocol, port) the workload's policies allow with `q`
+is held by an entry of the result that `q` satisfies — the entire-cluster entry, or a selector
+entry. `hcov`: a representative peer stands for every rule peer (of a rule that is not
+cluster-wide) that matches `q`. -/
+theorem exposure_complete (x : XEngine) (ha : x.eng.anps = []) (hb : x.eng.banp = none)
+    (hv : NpValid x.eng) (hnn : NamesNonEmpty x.eng) (hreps : ∀ krp ∈ x.reps, RepWF krp.2)
+    (n : String) (pod : Pod) (hpod : pod.isRepresentative = false ∧ pod.ValidPorts)
+    (hname : pod.name ≠ representativePodName) (ns : NsObj) (hns : x.eng.findNs pod.ns = some ns)
+    (i : Bool) (hprot : isProtected x.eng pod i = true) (res : Option (Bool × List XEntry))
+    (h : xgressExposure x (.wl n pod) i = .ok res) (q : Pod) (nsl : Labels) (pr : Proto) (p : Int)
+    (hp : inRange p)
+    (hcov : ∀ np r, PRule x.eng pod (dirOf i) np r → isCW r = false → ∀ peer ∈ r.peers,
+      Spec.npPeerMatches np peer (.pod q nsl) = true → RepCovers x np peer q nsl)
+    (hal : Spec.allowedDir x.eng.toView (.pod pod ns.labels) (.pod q nsl)
+      (dstEnd i pod ns.labels q nsl) (dirOf i) pr p = true) :
+    ∃ entries, res = some (true, entries) ∧ ∃ en ∈ entries,
+      (en.entireCluster = true ∨ Sat en.podSel en.nsSel q nsl) ∧ denFor i en.conn q pr p := by
+  have hgov : Spec.governs x.eng.toView pod (dirOf i) = true := by
+    rw [← C06.protected_iff_governs x.eng pod hpod.1 i]; exact hprot
+  have hnp := npAllows_of_allowedDir x.eng.toView ha hb pod ns.labels _ _ _ pr p hgov hal
+  obtain ⟨ns', hns', h1 | h1⟩ := xgressExposure_spec x hv hreps n pod hpod hname i res h
+  · rw [hprot] at h1; cases h1.1
+  · rw [hns] at hns'
+    cases hns'
+    obtain ⟨_, cw, perRep, hcw, hX, rfl⟩ := h1
+    rcases xspec_complete x hv hnn pod hpod ns i cw hcw perRep hX q nsl pr p hp hcov hnp with
+      hc | ⟨en, hen, hec, hsat, hden⟩
+    · have hne : cw.isEmpty = false := by
+        cases hce : cw.isEmpty
+        · rfl
+        · exact absurd hc (not_denFor_of_isEmpty hce q pr p)
+      have hg : general cw = [⟨true, none, none, cw⟩] := by simp [general, hne]
+      refine ⟨general cw ++ perRep, ?_, ⟨true, none, none, cw⟩, ?_, Or.inl rfl, hc⟩
+      · simp [hg]
+      · rw [hg]; exact List.mem_append_left _ (List.mem_singleton.mpr rfl)
+    · refine ⟨general cw ++ perRep, ?_, en, List.mem_append_right _ hen, Or.inr hsat, hden⟩
+      have : perRep.isEmpty = false := by
+        cases perRep with
+        | nil => cases hen
+        | cons _ _ => rfl
+      simp [this]
+
+/-- Rung 5, the report: the covering entry is in the report of the exposed peers -/
+theorem exposed_peers_complete (x : XEngine) (ha : x.eng.anps = []) (hb : x.eng.banp = none)
+    (hv : NpValid x.eng) (hnn : NamesNonEmpty x.eng) (hreps : ∀ krp ∈ x.reps, RepWF krp.2)
+    (peers : List LPeer) (focus : String) (xs : List XPeer)
+    (hx : exposedPeers x peers focus = .ok xs) (n : String) (pod : Pod)
+    (hw : LPeer.wl n pod ∈ peers) (hf : isFocus focus (.wl n pod) = true)
+    (hpod : pod.isRepresentative = false ∧ pod.ValidPorts)
+    (hname : pod.name ≠ representativePodName) (ns : NsObj) (hns : x.eng.findNs pod.ns = some ns)
+    (i : Bool) (hprot : isProtected x.eng pod i = true) (q : Pod) (nsl : Labels) (pr : Proto)
+    (p : Int) (hp : inRange p)
+    (hcov : ∀ np r, PRule x.eng pod (dirOf i) np r → isCW r = false → ∀ peer ∈ r.peers,
+      Spec.npPeerMatches np peer (.pod q nsl) = true → RepCovers x np peer q nsl)
+    (hal : Spec.allowedDir x.eng.toView (.pod pod ns.labels) (.pod q nsl)
+      (dstEnd i pod ns.labels q nsl) (dirOf i) pr p = true) :
+    ∃ xp ∈ xs, xp.name = n ∧ ∃ en ∈ (if i then xp.ing else xp.eg),
+      (en.entireCluster = true ∨ Sat en.podSel en.nsSel q nsl) ∧ denFor i en.conn q pr p := by
+  obtain ⟨ri, rg, hi, hg, hcase⟩ := exposedPeers_mem_of hx hw hf
+  cases i
+  · obtain ⟨entries, rfl, en, hen, hs⟩ := exposure_complete x ha hb hv hnn hreps n pod hpod hname ns
+      hns false hprot rg hg q nsl pr p hp hcov hal
+    rcases hcase with ⟨_, h2⟩ | hmem
+    · cases h2
+    · exact ⟨_, hmem, rfl, en, hen, hs⟩
+  · obtain ⟨entries, rfl, en, hen, hs⟩ := exposure_complete x ha hb hv hnn hreps n pod hpod hname ns
+      hns true hprot ri hi q nsl pr p hp hcov hal
+    rcases hcase with ⟨h1, _⟩ | hmem
+    · cases h1
+    · exact ⟨_, hmem, rfl, en, hen, hs⟩
+
+/-- Rung 5 for the engine `Exposure.build` returns, with the documented omission handled precisely.
+For a protected workload and a hypothetical pod `q` (namespace labels `nsl`): every in-range
+(protocol, port) the workload's policies allow with `q` is held by a reported entry `q` satisfies,
+**or** some rule peer that matches `q` has selectors that are (up to spelling) label equalities
+only and are satisfied by an input workload together with the labels of its namespace
+(`Exposure.Omitted`) — the case in which `removeRepresentativePeersMatchingLabels` drops the
+representative peer. `hK`: the map key of the representative peers is faithful on the rule selectors
+of the input (no two different selector pairs with the same key). -/
+theorem exposure_complete_build (objs : List Obj) (x : XEngine) (hbuild : Exposure.build objs = .ok x)
+    (hK : KeyFaithful x.eng) (hv : NpValid x.eng) (hnn : NamesNonEmpty x.eng) (n : String) (pod : Pod)
+    (hpod : pod.isRepresentative = false ∧ pod.ValidPorts)
+    (hname : pod.name ≠ representativePodName) (ns : NsObj) (hns : x.eng.findNs pod.ns = some ns)
+    (i : Bool) (hprot : isProtected x.eng pod i = true) (res : Option (Bool × List XEntry))
+    (h : xgressExposure x (.wl n pod) i = .ok res) (q : Pod) (nsl : Labels)
+    (hc : NsConsistent q nsl) (pr : Proto) (p : Int) (hp : inRange p)
+    (hal : Spec.allowedDir x.eng.toView (.pod pod ns.labels) (.pod q nsl)
+      (dstEnd i pod ns.labels q nsl) (dirOf i) pr p = true) :
+    (∃ entries, res = some (true, entries) ∧ ∃ en ∈ entries,
+      (en.entireCluster = true ∨ Sat en.podSel en.nsSel q nsl) ∧ denFor i en.conn q pr p) ∨
+    (∃ np r podSel nsSel, PRule x.eng pod (dirOf i) np r ∧ isCW r = false ∧
+      NPPeer.sel podSel nsSel ∈ r.peers ∧
+      Spec.npPeerMatches np (.sel podSel nsSel) (.pod q nsl) = true ∧
+      Omitted x objs podSel (nsSel.getD (nsNameSelector np.ns))) := by
+  by_cases hex : ∃ np r podSel nsSel, PRule x.eng pod (dirOf i) np r ∧ isCW r = false ∧
+      NPPeer.sel podSel nsSel ∈ r.peers ∧
+      Spec.npPeerMatches np (.sel podSel nsSel) (.pod q nsl) = true ∧
+      Omitted x objs podSel (nsSel.getD (nsNameSelector np.ns))
+  · exact Or.inr hex
+  · left
+    obtain ⟨ha, hb, hreps, _⟩ := C06.build_provides hbuild
+    apply exposure_complete x ha hb hv hnn hreps n pod hpod hname ns hns i hprot res h q nsl pr p hp
+      ?_ hal
+    intro np r hP hcw peer hpeer hm
+    cases peer with
+    | ip c ex => rw [Spec.npPeerMatches_ip_pod] at hm; cases hm
+    | sel podSel nsSel =>
+      rcases build_covers hbuild hK np hP.1 (dirOf i) (selects_affects hP.2.1) r hP.2.2 hcw podSel
+        nsSel hpeer q nsl hc hm with h1 | h1
+      · exact h1
+      · exact absurd ⟨np, r, podSel, nsSel, hP, hcw, hpeer, hm, h1⟩ hex
+
+/-- the same with syntactic hypotheses on the input: the selectors have label syntax
+(`SelectorsOK`) and the map key has no collision on them (`KeyInjective`: selector pairs with the same
+key have the same requirement strings) -/
+theorem exposure_complete_build_syntactic (objs : List Obj) (x : XEngine)
+    (hbuild : Exposure.build objs = .ok x) (hok : SelectorsOK x.eng) (hK : KeyInjective x.eng)
+    (hv : NpValid x.eng) (hnn : NamesNonEmpty x.eng) (n : String) (pod : Pod)
+    (hpod : pod.isRepresentative = false ∧ pod.ValidPorts)
+    (hname : pod.name ≠ representativePodName) (ns : NsObj) (hns : x.eng.findNs pod.ns = some ns)
+    (i : Bool) (hprot : isProtected x.eng pod i = true) (res : Option (Bool × List XEntry))
+    (h : xgressExposure x (.wl n pod) i = .ok res) (q : Pod) (nsl : Labels)
+    (hc : NsConsistent q nsl) (pr : Proto) (p : Int) (hp : inRange p)
+    (hal : Spec.allowedDir x.eng.toView (.pod pod ns.labels) (.pod q nsl)
+      (dstEnd i pod ns.labels q nsl) (dirOf i) pr p = true) :
+    (∃ entries, res = some (true, entries) ∧ ∃ en ∈ entries,
+      (en.entireCluster = true ∨ Sat en.podSel en.nsSel q nsl) ∧ denFor i en.conn q pr p) ∨
+    (∃ np r podSel nsSel, PRule x.eng pod (dirOf i) np r ∧ isCW r = false ∧
+      NPPeer.sel podSel nsSel ∈ r.peers ∧
+      Spec.npPeerMatches np (.sel podSel nsSel) (.pod q nsl) = true ∧
+      Omitted x objs podSel (nsSel.getD (nsNameSelector np.ns))) :=
+  exposure_complete_build objs x hbuild (keyFaithful_of_injective hok hK) hv hnn n pod hpod hname ns
+    hns i hprot res h q nsl hc pr p hp hal
+
+/-! ### non-vacuity: the engine of `C06.Examples` -/
+namespace Examples
+open C06.Examples
+attribute [local instance] Engine.decEqExcept
+
+/-- a hypothetical second client pod in the namespace `default` -/
+def qClient : Pod :=
+  { ns := "default", name := "client-2", labels := [("app", "client"), ("tier", "x")], ports := [] }
+
+theorem cons_qClient : NsConsistent qClient nsDefault.labels := by
+  unfold NsConsistent
+  decide
+
+/-- `web`'s ingress policy allows TCP 8080 (its port `http`) from `qClient` -/
+theorem allowed_qClient :
+    Spec.allowedDir ex.eng.toView (.pod web nsDefault.labels) (.pod qClient nsDefault.labels)
+      (dstEnd true web nsDefault.labels qClient nsDefault.labels) (dirOf true) .TCP 8080 = true :=
+  C06.allowedDir_of_npAllows ex.eng.toView rfl rfl web _ _ _ _ _ _ (by decide)
+
+/-- the representative peer `repClient` stands for the one rule peer that matches `qClient` -/
+theorem cov_qClient : ∀ p r, PRule ex.eng web (dirOf true) p r → isCW r = false → ∀ peer ∈ r.peers,
+    Spec.npPeerMatches p peer (.pod qClient nsDefault.labels) = true →
+      RepCovers ex p peer qClient nsDefault.labels := by
+  intro p r hP hcw peer hpeer hm
+  obtain ⟨hp, _, hr⟩ := hP
+  have : p = np := by simpa [ex] using hp
+  subst this
+  have hr' : r = ⟨[.sel (some selClient) none], [⟨none, .name "http"⟩, ⟨some .UDP, .num 53 none⟩]⟩ ∨
+      r = ⟨[.sel none (some ⟨[], []⟩)], [⟨none, .num 9090 none⟩]⟩ := by
+    simpa [Spec.npRules, np] using hr
+  rcases hr' with rfl | rfl
+  · have : peer = .sel (some selClient) none := by simpa using hpeer
+    subst this
+    exact rep_covers_of_generated ex np (some selClient) none qClient nsDefault.labels cons_qClient hm
+      ("kubernetes.io/metadata.name=default/app=client", repClient) (by simp [ex]) rfl rfl
+  · exact absurd hcw (by decide)
+
+/-- the theorem at work: the ingress result of `web` is `some (true, entries)` and holds an entry
+that `qClient` satisfies and that contains TCP 8080 -/
+example : ∃ res, xgressExposure ex wWeb true = .ok res ∧
+    ∃ entries, res = some (true, entries) ∧ ∃ en ∈ entries,
+      (en.entireCluster = true ∨ Sat en.podSel en.nsSel qClient nsDefault.labels) ∧
+        denFor true en.conn qClient .TCP 8080 := by
+  obtain ⟨res, hres⟩ := xgressExposure_ok ex (by decide) (by decide) (by decide) "default/web[Pod]" web
+    (by decide) (by decide) nsDefault (by decide) true
+  exact ⟨res, hres, exposure_complete ex rfl rfl (by decide) (by decide) (by decide) "default/web[Pod]"
+    web (by decide) (by decide) nsDefault (by decide) true (by decide) res hres qClient nsDefault.labels
+    .TCP 8080 (by decide) cov_qClient allowed_qClient⟩
+
+/-- the keys of the two selector pairs of `np` differ -/
+theorem keyFaithful_ex : KeyFaithful ex.eng := by
+  intro np1 h1 rs1 hr1 np2 h2 rs2 hr2 hkey
+  have e1 : np1 = np := by simpa [ex] using h1
+  have e2 : np2 = np := by simpa [ex] using h2
+  subst e1 e2
+  rw [allSels_np] at hr1 hr2
+  have hns : np.ns = "default" := rfl
+  rw [hns] at hkey
+  simp only [List.mem_cons, List.not_mem_nil, or_false] at hr1 hr2
+  rcases hr1 with rfl | rfl <;> rcases hr2 with rfl | rfl
+  · exact ⟨SelEquiv.refl _, SelEquiv.refl _⟩
+  · rw [key1, key2] at hkey; exact absurd hkey (by decide)
+  · rw [key1, key2] at hkey; exact absurd hkey (by decide)
+  · exact ⟨SelEquiv.refl _, SelEquiv.refl _⟩
+
+theorem keyInjective_ex : KeyInjective ex.eng := by
+  intro np1 h1 rs1 hr1 np2 h2 rs2 hr2 hkey
+  have e1 : np1 = np := by simpa [ex] using h1
+  have e2 : np2 = np := by simpa [ex] using h2
+  subst e1 e2
+  rw [allSels_np] at hr1 hr2
+  have hns : np.ns = "default" := rfl
+  rw [hns] at hkey
+  simp only [List.mem_cons, List.not_mem_nil, or_false] at hr1 hr2
+  rcases hr1 with rfl | rfl <;> rcases hr2 with rfl | rfl
+  · exact ⟨rfl, rfl⟩
+  · rw [key1, key2] at hkey; exact absurd hkey (by decide)
+  · rw [key1, key2] at hkey; exact absurd hkey (by decide)
+  · exact ⟨rfl, rfl⟩
+
+/-- the build-level theorem on the same query: the hypotheses hold; here nothing is omitted, so the
+first alternative is the case (`cov_qClient` above) -/
+example : ∃ res, xgressExposure ex wWeb true = .ok res ∧
+    ((∃ entries, res = some (true, entries) ∧ ∃ en ∈ entries,
+      (en.entireCluster = true ∨ Sat en.podSel en.nsSel qClient nsDefault.labels) ∧
+        denFor true en.conn qClient .TCP 8080) ∨
+     (∃ p r podSel nsSel, PRule ex.eng web (dirOf true) p r ∧ isCW r = false ∧
+      NPPeer.sel podSel nsSel ∈ r.peers ∧
+      Spec.npPeerMatches p (.sel podSel nsSel) (.pod qClient nsDefault.labels) = true ∧
+      Omitted ex exObjs podSel (nsSel.getD (nsNameSelector p.ns)))) := by
+  obtain ⟨res, hres⟩ := xgressExposure_ok ex (by decide) (by decide) (by decide) "default/web[Pod]" web
+    (by decide) (by decide) nsDefault (by decide) true
+  exact ⟨res, hres, exposure_complete_build exObjs ex build_ex keyFaithful_ex (by decide) (by decide)
+    "default/web[Pod]" web (by decide) (by decide) nsDefault (by decide) true (by decide) res hres
+    qClient nsDefault.labels cons_qClient .TCP 8080 (by decide) allowed_qClient⟩
+
+/-- … and the syntactic form: label syntax and no key collision -/
+example : ∃ res, xgressExposure ex wWeb true = .ok res ∧
+    ((∃ entries, res = some (true, entries) ∧ ∃ en ∈ entries,
+      (en.entireCluster = true ∨ Sat en.podSel en.nsSel qClient nsDefault.labels) ∧
+        denFor true en.conn qClient .TCP 8080) ∨
+     (∃ p r podSel nsSel, PRule ex.eng web (dirOf true) p r ∧ isCW r = false ∧
+      NPPeer.sel podSel nsSel ∈ r.peers ∧
+      Spec.npPeerMatches p (.sel podSel nsSel) (.pod qClient nsDefault.labels) = true ∧
+      Omitted ex exObjs podSel (nsSel.getD (nsNameSelector p.ns)))) := by
+  obtain ⟨res, hres⟩ := xgressExposure_ok ex (by decide) (by decide) (by decide) "default/web[Pod]" web
+    (by decide) (by decide) nsDefault (by decide) true
+  exact ⟨res, hres, exposure_complete_build_syntactic exObjs ex build_ex (by decide) keyInjective_ex
+    (by decide) (by decide) "default/web[Pod]" web (by decide) (by decide) nsDefault (by decide) true
+    (by decide) res hres qClient nsDefault.labels cons_qClient .TCP 8080 (by decide) allowed_qClient⟩
+
+/-! the documented omission: with a real pod `app=client` in `default`, `Exposure.build` removes
+`repClient` (checked with `#eval`); no reported entry then covers TCP 8080 from `qClient`, although
+`web`'s policy allows it — the hypothesis `hcov` is needed -/
+def client : Pod :=
+  { ns := "default", name := "client", labels := [("app", "client")], ports := [] }
+def exOm : XEngine :=
+  { eng := { ex.eng with pods := [web, other, client] }, reps := [("env=prod/", repProd)] }
+
+example : Spec.allowedDir exOm.eng.toView (.pod web nsDefault.labels) (.pod qClient nsDefault.labels)
+    (dstEnd true web nsDefault.labels qClient nsDefault.labels) (dirOf true) .TCP 8080 = true :=
+  C06.allowedDir_of_npAllows exOm.eng.toView rfl rfl web _ _ _ _ _ _ (by decide)
+
+example : ∀ res, xgressExposure exOm wWeb true = .ok res →
+    ¬ ∃ entries, res = some (true, entries) ∧ ∃ en ∈ entries,
+      (en.entireCluster = true ∨ Sat en.podSel en.nsSel qClient nsDefault.labels) ∧
+        denFor true en.conn qClient .TCP 8080 := by
+  intro res hres
+  obtain ⟨ns, _, h1 | h1⟩ := xgressExposure_spec exOm (by decide) (by decide) "default/web[Pod]" web
+    (by decide) (by decide) true res hres
+  · rintro ⟨entries, heq, _⟩
+    rw [h1.2] at heq
+    cases heq
+  · obtain ⟨_, cw, perRep, hcw, hX, rfl⟩ := h1
+    have hcw' : clusterWideConn exOm.eng web true =
+        .ok ⟨false, some ⟨[⟨9090, 9090⟩], [], []⟩, none, none⟩ := by decide
+    rw [hcw'] at hcw
+    cases hcw
+    rintro ⟨entries, heq, en, hen, hsat, hden⟩
+    have hent : entries = general ⟨false, some ⟨[⟨9090, 9090⟩], [], []⟩, none, none⟩ ++ perRep := by
+      split at heq
+      · cases heq
+      · cases heq; rfl
+    subst hent
+    rcases List.mem_append.mp hen with hg | hr
+    · have : en = ⟨true, none, none, ⟨false, some ⟨[⟨9090, 9090⟩], [], []⟩, none, none⟩⟩ := by
+        simpa [general, ConnSet.isEmpty, ConnSet.noProtos] using hg
+      subst this
+      rcases hden with hd | ⟨hi, _⟩
+      · revert hd; decide
+      · cases hi
+    · obtain ⟨krp, hk, c, _, _, rfl⟩ := hX.sound en hr
+      have : krp = ("env=prod/", repProd) := by simpa [exOm] using hk
+      subst this
+      rcases hsat with h | h
+      · cases h
+      · have := h.2 selProd rfl
+        revert this
+        decide
+
+/-- … and the selectors of the rule peer that matches `qClient` are `Omitted`: label equalities only,
+satisfied by the input pod `client` and the labels of its namespace -/
+example : Omitted exOm [.ns nsDefault, .pod web, .pod other, .pod client, .np np] (some selClient)
+    ((none : Option Selector).getD (nsNameSelector np.ns)) :=
+  ⟨selClient, nsNameSelector "default", SelEquiv.refl _, SelEquiv.refl _, rfl, rfl, by decide, by decide,
+    .pod client, by simp, client.labels, "default", nsDefault, rfl, by decide, by decide, by decide⟩
+
+/-! the finding behind the second way to lose a representative peer: `uniqueKey` concatenates the
+requirement strings without separator, so that the selectors `{ab: c}` and `{a exists, b: c}` — which
+no label set satisfies both — get the same key, and `addRepresentativePod` keeps one peer for the two -/
+def selAB : Selector := ⟨[("ab", "c")], []⟩
+def selA_B : Selector := ⟨[("b", "c")], [⟨"a", .Exists, []⟩]⟩
+
+example : uniqueKey (some selAB) = uniqueKey (some selA_B) := by
+  simp [uniqueKey, selAB, selA_B, Selector.reqStrings, reqString, List.mergeSort,
+    List.MergeSort.Internal.splitInTwo, String.join]
+/-- a policy with two ingress rules: from `{ab: c}` on TCP 80, from `{a exists, b: c}` on TCP 81 -/
+def npColl : NetPol :=
+  { ns := "default", name := "coll", podSel := ⟨[("app", "web")], []⟩, types := [.ingress],
+    ingress := [⟨[.sel (some selAB) none], [⟨none, .num 80 none⟩]⟩,
+                ⟨[.sel (some selA_B) none], [⟨none, .num 81 none⟩]⟩], egress := [] }
+def engColl : Engine := { namespaces := [nsDefault], pods := [web], netpols := [npColl], exposure := true }
+
+/-- the input has label syntax, and yet the map key collides on it -/
+example : SelectorsOK engColl ∧ ¬ KeyInjective engColl := by
+  refine ⟨by decide, fun h => ?_⟩
+  have hs : allSels npColl = [⟨some selAB, none⟩, ⟨some selA_B, none⟩] := by rfl
+  have := (h npColl (by simp [engColl]) ⟨some selAB, none⟩ (by rw [hs]; simp)
+    npColl (by simp [engColl]) ⟨some selA_B, none⟩ (by rw [hs]; simp) (by
+      simp [keyOf, nsOf, uniqueKey, selAB, selA_B, Selector.reqStrings, reqString, List.mergeSort,
+        List.MergeSort.Internal.splitInTwo, String.join])).1
+  revert this
+  simp [selAB, selA_B, Selector.reqStrings, reqString, List.mergeSort,
+    List.MergeSort.Internal.splitInTwo]
+
+example : selAB.matches [("ab", "c")] = true ∧ selA_B.matches [("ab", "c")] = false ∧
+    selA_B.matches [("a", "x"), ("b", "c")] = true ∧ selAB.matches [("a", "x"), ("b", "c")] = false := by
+  decide
+
+end Examples
 
 end Netpol.Properties.C07
